@@ -62,16 +62,38 @@ impl ExponentialBackoff {
     }
 }
 
+/// `initial * multiplier^attempt`, capped at `max`, for every attempt number.
+///
+/// The product is formed and capped in `f64` and only then converted back, so a
+/// product too large for a `Duration` (or an exponent too large for `powi`)
+/// saturates at the cap instead of panicking or wrapping around.
+fn exponential_interval(
+    initial: Duration,
+    multiplier: f64,
+    attempt: usize,
+    max: Option<Duration>,
+) -> Duration {
+    let cap = max.unwrap_or(Duration::MAX);
+    let exponent = attempt.min(i32::MAX as usize) as i32;
+    let secs = initial.as_secs_f64() * multiplier.powi(exponent);
+    if !(secs > 0.0) {
+        // zero interval (including 0 * inf = NaN)
+        return Duration::ZERO;
+    }
+    match Duration::try_from_secs_f64(secs) {
+        Ok(interval) => interval.min(cap),
+        Err(_) => cap,
+    }
+}
+
 impl IntervalFunction for ExponentialBackoff {
     fn next_interval(&self, attempt: usize) -> Duration {
-        let multiplier = self.multiplier.powi(attempt as i32);
-        let interval = self.initial_interval.mul_f64(multiplier);
-
-        if let Some(max) = self.max_interval {
-            interval.min(max)
-        } else {
-            interval
-        }
+        exponential_interval(
+            self.initial_interval,
+            self.multiplier,
+            attempt,
+            self.max_interval,
+        )
     }
 }
 
@@ -119,20 +141,18 @@ impl ExponentialRandomBackoff {
         let min = duration.as_secs_f64() - delta;
         let max = duration.as_secs_f64() + delta;
         let randomized = rng.random_range(min..=max);
-        Duration::from_secs_f64(randomized.max(0.0))
+        Duration::try_from_secs_f64(randomized.max(0.0)).unwrap_or(Duration::MAX)
     }
 }
 
 impl IntervalFunction for ExponentialRandomBackoff {
     fn next_interval(&self, attempt: usize) -> Duration {
-        let multiplier = self.multiplier.powi(attempt as i32);
-        let interval = self.initial_interval.mul_f64(multiplier);
-
-        let capped = if let Some(max) = self.max_interval {
-            interval.min(max)
-        } else {
-            interval
-        };
+        let capped = exponential_interval(
+            self.initial_interval,
+            self.multiplier,
+            attempt,
+            self.max_interval,
+        );
 
         self.randomize(capped)
     }
